@@ -764,10 +764,13 @@ def lsp_project_check(ctx, binary, mods, label, stats, positions=40):
     try:
         os.makedirs(os.path.join(root, "src"))
         open(os.path.join(root, "sconfig.json"), "w").write('{"sourceDirectory": "src", "__dangerously_allow_libdef_shadowing__": true}')
-        lsp = Lsp(binary, os.path.realpath(root))
+        # all files are on disk BEFORE the server starts (it reads the source directory once at start-up)
         for m, t in allmods.items():
-            os.makedirs(os.path.dirname(lsp.path(m)), exist_ok=True)
-            open(lsp.path(m), "w", encoding="utf-8").write(t)
+            fp = os.path.join(os.path.realpath(root), "src", *m.split(".")) + ".sam"
+            os.makedirs(os.path.dirname(fp), exist_ok=True)
+            with open(fp, "w", encoding="utf-8") as fh:
+                fh.write(t)
+        lsp = Lsp(binary, os.path.realpath(root))
         got = lsp.start()
         if got is None:
             lsp.close()
